@@ -142,6 +142,23 @@ def sample_in_bounds(rng, n, nfeat, margin):
     return lo + (hi - lo) * rng.uniform(margin, 1 - margin, size=(n, nfeat))
 
 
+def spin_rbf_cases(ck, rng):
+    """POL-mode C evaluator vs the closed-form kernel sum: both pairings, broad and narrow length scales, inputs in the
+    orientation of the control points and with the spin labels exchanged"""
+    import spinkernel
+    from ciderpress.dft.xc_evaluator import SpinRBFEvaluator
+    for name, ls, Xc, alpha, X in spinkernel.cases(rng, N1=4):
+        kern = quiet(get_rbf_kernel, slice(0, 4), ls, scale=1.0)
+        ev = SpinRBFEvaluator(kern, Xc, alpha)
+        f, df = ev(X.copy())
+        rf, rdf = spinkernel.reference(X, Xc, ev._alpha, ls)
+        ck.count(key=("spinrbf", name))
+        sc = 1e-300 + np.abs(rf).max()
+        if not np.abs(f - rf).max() <= 1e-12 * (1 + sc) or not np.abs(df - rdf).max() <= 1e-11 * (1 + np.abs(rdf).max()):
+            ck.violation("spin-rbf-evaluator:%s:differs-from-kernel-sum" % name.split(":")[0],
+                         {"case": name, "value_err": float(np.abs(f - rf).max()), "grad_err": float(np.abs(df - rdf).max()), "scale": float(sc)})
+
+
 def additive_case(ck, rng, model_terms, ns, na, order, kind, densities, layout="front"):
     """map an additive kernel (optionally times a subset RBF) to splines and compare on the bounded domain.
     layout: where the single / additive dimensions sit in the feature vector (MapTerms!Inds); features have
@@ -295,6 +312,7 @@ def main():
     if len(model_terms) < 20:
         raise MachineryError("MapTerms emitted %d configurations" % len(model_terms))
     rbf_cases(ck, rng)
+    spin_rbf_cases(ck, rng)
     dens = (8, 16, 32)
     cases = []
     for ns in (0, 1, 2):
